@@ -18,7 +18,8 @@ for p in props:
         checks.append(dict(property_id=pid, quick_cmd=f'./check {pid} --tier quick', thorough_cmd=f'./check {pid} --tier thorough',
                            evidence_file=f'/verif/evidence/{pid}.json', replay_cmd_template=f'./check {pid} --replay {{path}}',
                            engine='lean4-model+harness',
-                           level_claimed=dict(category=c.get('category', 'proof'), text=c['text'], design_ref=c.get('design_ref', f'§6 {pid}')),
+                           level_claimed=dict(category=('proof' if c.get('category', 'proof') == 'partial' else c.get('category', 'proof')),
+                                              text=(('PARTIAL (the logic part is proved in Lean for all inputs; the compiled-code/runtime part is observed on the real binary, not proved). ' if c.get('category') == 'partial' else '') + c['text']), design_ref=c.get('design_ref', f'§6 {pid}')),
                            level_note=c['note'], technique=c['technique']))
 NA = {}
 nap = os.path.join(VERIF, 'tools', 'claims', 'not_applicable.json')
